@@ -23,4 +23,6 @@ VARIANTS = [
     V('shared-default-obstruction-list', F, [("def __init__(self, origin = None):", "def __init__(self, origin = None, obstructions = []):"), ("self.obstructions = []", "self.obstructions = obstructions")], 'fire', 'R15.4'),
     V('benign-given-or-fresh-obstruction-list', F, [("def __init__(self, origin = None):", "def __init__(self, origin = None, obstructions = None):"), ("self.obstructions = []", "self.obstructions = list(obstructions) if obstructions is not None else []")], 'silent'),
     V('class-level-obstruction-list', F, ("self.obstructions = []\n", "pass\n"), 'fire', 'R15.4'),
+    V('box-not-stored-when-corners-enclosed', F, ("self.obstructions.append([", "if any(ob[0][0] <= L[0] <= ob[1][0] for ob in self.obstructions):\n            return\n        self.obstructions.append(["), 'fire', 'R15.3'),
+    V('benign-corners-normalised-per-axis', F, ("tm([L[0], L[1], L[2], -2*np.pi, -2*np.pi, -2*np.pi]),\n            tm([R[0], R[1], R[2], 2*np.pi, 2*np.pi, 2*np.pi])])", "tm([min(L[0], R[0]), min(L[1], R[1]), min(L[2], R[2]), -2*np.pi, -2*np.pi, -2*np.pi]),\n            tm([max(L[0], R[0]), max(L[1], R[1]), max(L[2], R[2]), 2*np.pi, 2*np.pi, 2*np.pi])])"), 'silent'),
 ]
